@@ -54,7 +54,7 @@ func ownerRevision(p *Pass, owner store.Obj) int64 {
 	var max int64
 	for _, po := range observedPrevious(p, owner) {
 		if po == nil {
-			return 0
+			continue // garbage collected previous revision: contributes nothing
 		}
 		r := store.Int(po, "status", "revision")
 		if r == 0 {
@@ -171,6 +171,9 @@ func (m *MonC01) OnPassEnd(w *World, p *Pass) {
 			}
 			if IsControlledBy(obs, owner, strategy) {
 				continue
+			}
+			if rev == 0 {
+				continue // revision could not be established from what the pass read
 			}
 			m.touch()
 			ok, why := adoptionPermitted(obs, owner, rev, previous, so.Collision, strategy, w.Cfg.ForceAdoption)
